@@ -295,3 +295,83 @@ def _ia_init_regular(c):
 
 def verify_initasync(run):
     run.verify('InitAsync.init_regular', cls='InitAsync')
+
+
+# ---- ValuePoll._maintask: periodic acquisition of the output value ----------------------------------------------------------------------------------
+declare_fields(_func=VAL, _interval=VAL)
+is_coro = Function('is_coroutine', Val, BoolSort())
+awaited = Function('awaited_result', Val, Val)
+
+
+def vp_iscoroutine(ex, e, st):
+    return [(s1, ZV('bool', is_coro(to_val(vals[0], s1)))) for s1, vals in ex.evs(e.args, st)]
+
+
+def vp_await_value(ex, node, st):
+    v = to_val(st.env['value'], st)
+    ok = st.copy()
+    for f in HANDLER_EFFECTS: ok.havoc_field(f)
+    impose_callee_guarantees(View(st), View(ok))
+    bad = ok.copy(); bad.label('acquisition:raises')
+    ca = ok.copy(); ca.label('cancelled')
+    return [(ok, ZV('val', awaited(v))), (bad, Raise(PExc('OtherException', val=Val.Obj(fresh('exc', IntSort())), where='callee'))),
+            (ca, Raise(PExc('CancelledError', val=Val.Obj(fresh('exc', IntSort())), where='callee')))]
+
+
+def vp_await_sleep(ex, node, st):
+    outs = []
+    for s1, vals in ex.evs(node.args, st):
+        s1 = s1.copy(); ex.emit(s1, rec('sleep', a0=to_val(vals[0], s1)))
+        for f in HANDLER_EFFECTS: s1.havoc_field(f)
+        impose_callee_guarantees(View(st), View(s1))
+        outs.append((s1, P_NONE))
+        ca = s1.copy(); ca.label('cancelled'); outs.append((ca, Raise(PExc('CancelledError', val=Val.Obj(fresh('exc', IntSort())), where='callee'))))
+    return outs
+
+
+def vp_func_call(ex, st, f, pos, named, stars, sargs, node):
+    outs = []
+    for s1, v in user_call(ex, st, f, pos, named, stars, sargs, node):
+        if not isinstance(v, Raise): s1.ghost['acquired'] = to_val(v, s1)
+        outs.append((s1, v))
+    return outs
+
+
+@contract('ValuePoll._maintask', qual='edzed.blocklib.sblocks1:ValuePoll._maintask', modifies=HANDLER_EFFECTS + ('ev_set',), self_cls='ValuePoll')
+def _vp_maintask(c):
+    me = c.z('self')
+    c.requires('started', Val.is_Obj(c.pre('_init_event', me)))       # the main task is created by start() (AddonMainTask.start, C08)
+    c.ensures('never_returns', BoolVal(False))
+    c.raises('CancelledError', unchanged=False, label='runs_until_cancelled')
+    c.raises('OtherException', unchanged=False, label='acquisition_error_ends_the_task')        # (reported by the task monitor: C09)
+    c.raises('DeliveryError', unchanged=False, label='delivery_of_an_output_event_failed')
+    c.raises('ValueError', unchanged=False, label='never')        # set_output(UNDEF) is excluded by the test before it
+    if c.verifying:
+        c.out.raises[3].when = BoolVal(False)
+        def expected(k, r, st):
+            fn = z3.simplify(Rec.fn(r)).as_string()
+            g = st.ghost
+            if fn == 'usercall':
+                goals = [('one_acquisition_per_round', And(g['phase'] == 0, Rec.recv(r) == c.pre('_func', me)))]; g['phase'] = 1
+                return goals
+            if fn == 'set_output':
+                v = g['acquired']; val = If(is_coro(v), awaited(v), v)
+                goals = [('the_output_is_the_acquired_value_unless_undefined', And(g['phase'] == 1, Rec.recv(r) == Val.Obj(me), Rec.a0(r) == val, val != Val.Undef))]
+                g['phase'] = 2
+                return goals
+            if fn == 'sleep':
+                goals = [('then_the_block_sleeps_for_the_polling_interval', And(Or(g['phase'] == 1, g['phase'] == 2), Rec.a0(r) == c.pre('_interval', me)))]
+                g['phase'] = 0
+                return goals
+            return [('no_other_call', BoolVal(False))]
+        c.expect_trace(expected, None, normal_len=None, predicate=True)
+
+
+def inv_valuepoll(lc):
+    return [('a_round_starts_with_an_acquisition', BoolVal(lc.st.st.ghost['phase'] == 0))]
+
+
+def verify_valuepoll(run):
+    run.verify('ValuePoll._maintask', cls='ValuePoll', ghost={'phase': 0, 'acquired': Val.VNone}, invariants={'while True': inv_valuepoll},
+               calls={'*value*': vp_func_call, 'asyncio.iscoroutine': vp_iscoroutine},
+               hooks={'await': awaits({'value': vp_await_value, 'asyncio.sleep(*': vp_await_sleep})})
